@@ -39,6 +39,7 @@ COVERS = ["mouette.attributes.attr_edges:edge_length", "mouette.attributes.attr_
 
 TOPO = {
     "tri": (3, [(0, 1, 2)], ()), "tri2": (4, [(0, 1, 2), (0, 2, 3)], ()), "fan3": (4, [(0, 1, 2), (0, 2, 3), (0, 3, 1)], ()),
+    "quadtri": (5, [(0, 1, 2, 3), (0, 3, 4)], ()),
     "tet": (4, (), [(0, 1, 2, 3)]), "tet2": (5, (), [(0, 1, 2, 3), (1, 2, 3, 4)]), "quad": (4, [(0, 1, 2, 3)], ()), "penta": (5, [(0, 1, 2, 3, 4)], ()),
 }
 
@@ -116,6 +117,7 @@ def _opts(sx):
 def edges_body(sx, S):
     from mouette import attributes as A
     o = _opts(sx)
+    n_first = 1 + sx.choice("n_first_edges", len(S.E) + 1)      # (drawn before any geometric constraint exists)
     L = A.edge_length(S.mesh, **o)
     Mid = A.edge_middle_point(S.mesh, **o)
     for e, (a, b) in enumerate(S.E):
@@ -129,6 +131,11 @@ def edges_body(sx, S):
         sx.check(deg[v] == sum(1 for e in S.E if v in e), "vertex degree is the number of incident edges")
     m = A.mean_edge_length(S.mesh)
     sx.check_eq(m * len(S.E), sum(L[e] for e in range(len(S.E))), "mean edge length is the mean of the edge lengths", tol=1e-9)
+    # early stopping: the mean of the first n elements (of all of them when n exceeds their number)
+    n = n_first
+    k = min(n, len(S.E))
+    sx.check_eq(A.mean_edge_length(S.mesh, n) * k, sum(L[e] for e in range(k)), "mean edge length over the first n edges is their mean", tol=1e-9,
+                detail="n=%d of %d" % (n, len(S.E)))
     b = A.barycenter(S.mesh)
     for k in range(3):
         sx.check_eq(b[k] * S.V, sum(S.Q[i][k] for i in range(S.V)), "mesh barycentre is the mean of the vertices", tol=1e-9)
@@ -137,6 +144,7 @@ def edges_body(sx, S):
 def faces_body(sx, S):
     from mouette import attributes as A
     o = _opts(sx)
+    n_first = 1 + sx.choice("n_first_faces", len(S.F) + 1)
     Ar = A.face_area(S.mesh, **o)
     B = A.face_barycenter(S.mesh, **o)
     tot = 0
@@ -152,6 +160,10 @@ def faces_body(sx, S):
     if S.mesh.faces.has_attribute("area") or True:
         sx.check_eq(A.total_area(S.mesh), tot, "total area is the sum of the face areas", tol=1e-9)
         sx.check_eq(A.mean_face_area(S.mesh) * len(S.F), tot, "mean face area is the mean of the face areas", tol=1e-9)
+        n = n_first
+        k = min(n, len(S.F))
+        sx.check_eq(A.mean_face_area(S.mesh, n) * k, sum(Ar[f] for f in range(k)), "mean face area over the first n faces is their mean", tol=1e-9,
+                    detail="n=%d of %d" % (n, len(S.F)))
 
 
 def normals_body(sx, S):
@@ -165,6 +177,65 @@ def normals_body(sx, S):
         s = symx.sqrt(dot(n, n))
         for k in range(3):
             sx.check_eq(nf[k] * s, n[k], "face normal is the cross product of two sides divided by its norm (oriented by the vertex order)", tol=1e-9)
+
+
+def vnormals_case(topo):
+    """vertex normals: the normalised weighted sum of the normals of exactly the incident faces, with the weights of the chosen
+    mode.  Coordinates are concrete and generic here (with symbolic coordinates the doubly nested normalisations put the
+    obligation out of reach: 12 'unknown' answers in 3 minutes); symbolic are the weighting mode, the storage kind, a rotation
+    of every face's vertex list and a transposition of the vertex numbering.  Per-face areas / normals / corner angles are the
+    subject of the symbolic obligations above; this one is about how they are combined."""
+    def h(sx):
+        from mouette import attributes as A
+        V, faces, _ = TOPO[topo]
+        mode = ["uniform", "area", "angle"][sx.choice("interpolation", 3)]
+        dense = sx.flag("dense")
+        rot = sx.choice("rotation", 3)
+        p, q = sx.choice("swap_a", V), sx.choice("swap_b", V)
+        perm = list(range(V))
+        perm[p], perm[q] = perm[q], perm[p]
+        faces = [tuple(perm[F[(i + rot) % len(F)]] for i in range(len(F))) for F in faces]
+        base = meshgen.generic_coords(V)
+        coords = [None] * V
+        for v in range(V):
+            coords[perm[v]] = base[v]
+        mesh = meshgen.build(coords, (), faces, ())
+        tag = " (%s weights)" % mode
+        try:
+            VN = A.vertex_normals(mesh, persistent=False, interpolation=mode, dense=dense)
+        except Exception as e:
+            sx.check(False, "vertex_normals raised" + tag, detail=repr(e))
+            return
+        P = [np.array(c, dtype=float) for c in coords]
+
+        def tri_area(a, b, c):
+            return 0.5 * float(np.linalg.norm(np.cross(b - a, c - a)))
+        for v in range(V):
+            tot = np.zeros(3)
+            for F in faces:
+                if v not in F:
+                    continue
+                a, b, c = (P[i] for i in F[:3])
+                n = np.cross(b - a, c - a)
+                n = n / np.linalg.norm(n)
+                if mode == "uniform":
+                    w = 1.
+                elif mode == "area":
+                    # the library's convention for quads: mean of the two triangulations
+                    w = tri_area(a, b, c) if len(F) == 3 else 0.5 * (tri_area(P[F[0]], P[F[1]], P[F[2]]) + tri_area(P[F[0]], P[F[2]], P[F[3]]) +
+                                                                      tri_area(P[F[1]], P[F[2]], P[F[3]]) + tri_area(P[F[1]], P[F[3]], P[F[0]]))
+                else:
+                    i = list(F).index(v)
+                    u, w_ = P[F[i - 1]] - P[v], P[F[(i + 1) % len(F)]] - P[v]
+                    w = math.atan2(float(np.linalg.norm(np.cross(u, w_))), float(np.dot(u, w_)))
+                tot = tot + w * n
+            got = np.array([float(VN[v][k]) for k in range(3)])
+            sx.check(abs(float(np.dot(got, got)) - 1) < 1e-9, "vertex normal is a unit vector" + tag)
+            want = tot / np.linalg.norm(tot)
+            sx.check(float(np.linalg.norm(got - want)) < 1e-9,
+                     "vertex normal is the normalised weighted sum of the normals of exactly the incident faces" + tag,
+                     detail="vertex %d: %s vs %s" % (v, got, want))
+    return h
 
 
 def planar_body(sx, S):
@@ -257,6 +328,7 @@ def defects_body(sx, S):
 def cells_body(sx, S):
     from mouette import attributes as A
     o = _opts(sx)
+    n_first = 1 + sx.choice("n_first_cells", len(S.cells) + 1)
     Vol = A.cell_volume(S.mesh, **o)
     B = A.cell_barycenter(S.mesh, **o)
     tot = 0
@@ -269,6 +341,10 @@ def cells_body(sx, S):
             sx.check_eq(B[ic][k] * 4, sum(S.Q[i][k] for i in C), "cell barycentre is the mean of its vertices", tol=1e-9)
         tot = tot + Vol[ic]
     sx.check_eq(A.mean_cell_volume(S.mesh) * len(S.cells), tot, "mean cell volume is the mean of the cell volumes", tol=1e-9)
+    n = n_first
+    k = min(n, len(S.cells))
+    sx.check_eq(A.mean_cell_volume(S.mesh, n) * k, sum(Vol[c] for c in range(k)), "mean cell volume over the first n cells is their mean", tol=1e-9,
+                detail="n=%d of %d" % (n, len(S.cells)))
 
 
 def interp_body(sx, S):
@@ -383,6 +459,9 @@ def _obligations(q):
         obs.append(Ob("angles-" + t, with_setup(t, angles_body, geometry_math=True), covers=COVERS, note="corner angles on " + t))
     obs.append(Ob("angles-quad", with_setup("quad", angles_body, geometry_math=True), covers=COVERS,
                   note="corner angles of one (generally non-planar, possibly non-convex) quad: every corner is measured, none deduced"))
+    for t in (["quadtri"] if q else ["quadtri", "tri2"]):
+        obs.append(Ob("vnormals-" + t, vnormals_case(t), covers=COVERS, split=3,
+                      note="vertex normals under each weighting on " + t + " (concrete generic coordinates; mode, storage, numbering symbolic)"))
     obs.append(Ob("normals-tri", with_setup("tri", normals_body), covers=COVERS, note="unit face normals"))
     for t in ["tri2", "fan3"]:
         obs.append(Ob("weights-" + t, with_setup(t, weights_body, need_geometry=False), covers=COVERS, note="cotangent weights from free per-corner cotangents on " + t))
